@@ -169,6 +169,11 @@ def run_case(case):
                 v = Violation("operand-modified", {"op": name, "operand": wname, "changed": d, "call_raised": not ok, "now": core.brief(x)}, sig={"op": name, "operand": wname})
                 v.case = dict(case, only=name)
                 raise v
+        ch = ctx.changed_args()
+        if ch:
+            v = Violation("argument-modified", {"op": name, "argument_types": ch, "call_raised": not ok}, sig={"op": name, "operand": "argument"})
+            v.case = dict(case, only=name)
+            raise v
         if [id(ax) for ax in a.axes] != ids:
             v = Violation("operand-axis-object-replaced", {"op": name}, sig={"op": name})
             v.case = dict(case, only=name)
